@@ -1129,6 +1129,13 @@ def rule_index_scope(repo):
     return r
 
 
+def _ancestors(n):
+    p = getattr(n, '_parent', None)
+    while p is not None:
+        yield p
+        p = getattr(p, '_parent', None)
+
+
 def rule_constraint_entry(repo):
     """How explicit constraints enter the graph: the sign recorded for RD/WR(x) vs U(blk), and the normalisation of method
     operands, decide which way round an edge is built later."""
@@ -1218,7 +1225,79 @@ def rule_constraint_entry(repo):
                                 *([] if ok else [f"operand `{v}` is normalised by a different case split than its siblings ({[a[0] for a in ref]}): an interface "
                                                  f"of the missing kind on this side of a constraint is compared as the interface object itself and never "
                                                  f"matches the method the blocks call -- the ordering constraint is silently lost", n.lineno]))
-    r.require_floor(8)
+    # constraints exported for top-level callee ports: inside `for zz in equiv[W]` the pair is the plain pair with W replaced by zz
+    adds = [c for c in ast.walk(g) if isinstance(c, ast.Call) and norm(c.func).endswith('top_level_callee_constraints.add') and c.args
+            and isinstance(c.args[0], ast.Tuple) and len(c.args[0].elts) == 2]
+    plain = [c for c in adds if not any(isinstance(a, ast.For) and norm(a.iter).startswith('equiv[') for a in _ancestors(c))]
+    if not plain:
+        raise AnalysisError("GenDAGPass._process_methods: the plain top-level callee constraint was not found")
+    base = tuple(norm(e) for e in plain[0].args[0].elts)
+    for c in adds:
+        loops = [a for a in _ancestors(c) if isinstance(a, ast.For) and norm(a.iter).startswith('equiv[')]
+        if not loops:
+            ok, want = tuple(norm(e) for e in c.args[0].elts) == base, base
+        else:
+            W, V = norm(loops[0].iter)[len('equiv['):-1], norm(loops[0].target)
+            want = tuple(V if x == W else x for x in base)
+            ok = tuple(norm(e) for e in c.args[0].elts) == want and W in base
+        (r.ok if ok else r.bad)(gm, 'GenDAGPass._process_methods', f"top_level_callee_constraints.add({norm(c.args[0])})",
+                                *([] if ok else [f"inside the loop over the equivalence class the exported pair must be {want}: the class member "
+                                                 f"(the top-level callee port's method) has to appear in the pair, otherwise the open-loop pass "
+                                                 f"cannot map the constraint to a callee and drops it", c.lineno]))
+    r.require_floor(12)
+    return r
+
+
+def rule_whole_array(repo):
+    """An update block that names a whole list of signals (`for x in s.cube: ...`, `s.regs` passed on) reads / writes every
+    signal in it, however deeply the list is nested."""
+    from sa.listwalk import ListWalk
+    r = RuleResult('R-C02-whole-array', "a reference to an un-indexed array of signals records every element at any nesting depth (1-D .. 4-D, "
+                                        "ragged, with empty rows): no element is skipped, so no reader / writer edge is lost")
+    m = repo.mod(L2)
+    f = m.get_func('ComponentLevel2._elaborate_read_write_func.extract_obj_from_names.lookup_variable')
+    fq = 'ComponentLevel2._elaborate_read_write_func.extract_obj_from_names.lookup_variable'
+    obj = f.args.args[0].arg
+    # the branch taken when the name is exhausted: `if name_depth >= len(obj_name): ... return`
+    exh = [n for n in f.body if isinstance(n, ast.If) and 'len(obj_name)' in norm(n.test)]
+    if len(exh) != 1:
+        raise AnalysisError(f"{fq}: the 'name exhausted' branch was not found")
+    body = [st for st in exh[0].body]
+    sink = None
+    for n in ast.walk(exh[0]):
+        if isinstance(n, ast.Call) and isinstance(n.func, ast.Attribute) and n.func.attr in ('add', 'update') and isinstance(n.func.value, ast.Name):
+            sink = n.func.value.id
+    if sink is None:
+        raise AnalysisError(f"{fq}: the set collecting the materialised objects was not found")
+    shapes = {
+        'single signal': 'a',
+        '1-D': ['a', 'b', 'c'],
+        '2-D': [['a', 'b'], ['c', 'd']],
+        '3-D': [[['a', 'b'], ['c']], [['d'], ['e', 'f']]],
+        '4-D': [[[['a'], ['b']]], [[['c']], [['d', 'e']]]],
+        'ragged with an empty row': [['a'], [], ['b', 'c']],
+        '1-element nest': [[['a']]],
+    }
+
+    def leaves(x):
+        return [x] if not isinstance(x, list) else [l for y in x for l in leaves(y)]
+    for name, shape in shapes.items():
+        w = ListWalk({'NamedObject', 'Signal', 'Connectable', 'Component', 'Interface'}, env={obj: shape, sink: set(), 'name_depth': 1, 'obj_name': [('s', [])]})
+        try:
+            w.block(body)
+        except Exception as e:
+            if e.__class__.__name__ == '_Return':
+                pass
+            else:
+                raise
+        r.evaluations += 1
+        got, want = w.env[sink], set(leaves(shape))
+        ok = got == want
+        (r.ok if ok else r.bad)(m, fq, f"{name}: {len(want)} signal(s)",
+                                *([] if ok else [f"a reference to the whole array records {sorted(got)} of {sorted(want)}: the elements "
+                                                 f"{sorted(want - got)} are neither read nor written as far as the scheduler knows (no edge, "
+                                                 f"no multi-writer check)", exh[0].lineno]))
+    r.require_floor(7)
     return r
 
 
@@ -1325,17 +1404,17 @@ def rule_cache_readonly(repo):
 
 def rule_scc_blocks(repo):
     """cyclic groups are evaluated by generated super-blocks: every block of the group runs in every pass and the pass is repeated
-    until every watched variable is stable (shared with C11: R-C11-template / -watch / -cover)"""
+    until every watched variable is stable; a constraint-only cycle is rejected per group (shared with C11: R-C11-template / -watch / -cover / -once)"""
     import rules.c11 as c11
     out = []
-    for rl in (c11.rule_template, c11.rule_watch, c11.rule_cover):
+    for rl in (c11.rule_template, c11.rule_watch, c11.rule_cover, c11.rule_once):
         res = rl(repo)
         out.extend(res if isinstance(res, list) else [res])
     return out
 
 
 RULES = [rule_visitor, rule_funcfold, rule_overlap, rule_pairing, rule_netblk, rule_kahn, rule_greenlet, rule_novar_cycle, rule_cache_scope,
-         rule_methods, rule_index_scope, rule_scc_blocks, rule_cache_readonly, rule_constraint_entry]
+         rule_methods, rule_index_scope, rule_scc_blocks, rule_cache_readonly, rule_constraint_entry, rule_whole_array]
 
 
 def _m(name, file, old, new, rule=None, count=1):
@@ -1343,6 +1422,9 @@ def _m(name, file, old, new, rule=None, count=1):
 
 
 MUTANTS = [
+    _m('whole-array-two-levels-only', L2, "            Q = [ *obj ] # PEP 448 -- see https://stackoverflow.com/a/43220129/6470797\n            while Q:\n              m = Q.pop()\n              if isinstance( m, NamedObject ):\n                objs.add( m )\n              elif isinstance( m, list ):\n                Q.extend( m )",
+       "            for m in obj:\n              if isinstance( m, NamedObject ):\n                objs.add( m )\n              elif isinstance( m, list ):\n                objs.update( x for x in m if isinstance( x, NamedObject ) )", 'R-C02-whole-array'),
+    _m('callee-constraint-class-member-lost', GENDAG, "            top._dag.top_level_callee_constraints.add( (xx, zz) )", "            top._dag.top_level_callee_constraints.add( (xx, yy) )", 'R-C02-constraint-entry'),
     _m('index-global-before-closure', ASTH, "          elif x in self.closure: n = (True, x)\n          elif x in self.globals: n = (False, x)\n", "          elif x in self.globals: n = (False, x)\n          elif x in self.closure: n = (True, x)\n", 'R-C02-index-scope', count='first'),
     _m('index-global-int-folded-at-parse', ASTH, "          elif x in self.globals: n = (False, x)\n", "          elif x in self.globals:\n            n = self.globals[x] if type(self.globals[x]) is int else (False, x)\n", 'R-C02-index-scope', count='first'),
     _m('constraint-sign-after-swap', L2, "        sign = 1 # RD(x) < U is 1, RD(x) > U is -1\n        if isinstance( x1, ValueConstraint ):\n          sign = -1\n          x0, x1 = x1, x0 # Make sure x0 is RD/WR(...) and x1 is U(...)\n",
@@ -1417,6 +1499,7 @@ MUTANTS = [
 ]
 
 EQUIV = [
+    _m('whole-array-fifo-worklist', L2, "              m = Q.pop()\n              if isinstance( m, NamedObject ):", "              m = Q.pop(0)\n              if isinstance( m, NamedObject ):"),
     _m('constraint-sign-ifexp', L2, "        sign = 1 # RD(x) < U is 1, RD(x) > U is -1\n        if isinstance( x1, ValueConstraint ):\n          sign = -1\n          x0, x1 = x1, x0 # Make sure x0 is RD/WR(...) and x1 is U(...)\n",
        "        sign = -1 if isinstance( x1, ValueConstraint ) else 1\n        if sign == -1:\n          x0, x1 = x1, x0 # Make sure x0 is RD/WR(...) and x1 is U(...)\n"),
     _m('explicit-edge-helper', GENDAG, "              if sign == 1: # RD/WR(x) < U is 1, RD/WR(x) > U is -1\n                # eq_blk == RD/WR(x) < co_blk\n                U_U.add( (eq_blk, co_blk) )\n                constraint_objs[ (eq_blk, co_blk) ].add( obj )\n              else:\n                # co_blk < RD/WR(x) == eq_blk\n                U_U.add( (co_blk, eq_blk) )\n                constraint_objs[ (co_blk, eq_blk) ].add( obj )",
